@@ -176,10 +176,7 @@ class SrcRig(_Rig):
         self.table = RemoteEntityCfgTable([self.rcfg])
         self.icfg = indications or IndicationCfg()
         self.seq = SeqCountProvider(ids.seq_w * 8)
-        if seq_start is not None:
-            self.seq.current = seq_start
-        else:
-            self.seq.current = ids.seq.value
+        self.seq.count = ids.seq.value if seq_start is None else seq_start
         self.h = SourceHandler(LocalEntityCfg(ids.src, self.icfg, self.fh), self.user, self.table,
                                w.timer, self.seq)
         self.history = []
